@@ -547,8 +547,9 @@ class GenericPlainRegistry(Generic[QuantityT, UnitT], metaclass=RegistryMeta):
         target_dict[key] = value
         if target_dict is self._units:
             self._prefixed_units.discard(key)
-            # a memoized parse of this spelling (e.g. as prefix + unit) is obsolete
-            self._cache.parse_unit.pop(key, None)
+            # a definition can change what other spellings mean (a plural, a prefixed
+            # form, a unit defined in terms of this one): memoized answers are obsolete
+            self._clear_memos()
         if casei_target_dict is not None:
             casei_target_dict[key.lower()].add(key)
 
@@ -575,6 +576,21 @@ class GenericPlainRegistry(Generic[QuantityT, UnitT], metaclass=RegistryMeta):
 
     def _add_prefix(self, definition: PrefixDefinition) -> None:
         self._helper_adder(definition, self._prefixes, None)
+
+    def _clear_memos(self) -> None:
+        """Drop the memoized answers (parsed names, dimensionality, root units,
+        conversion factors); they are computed again on demand."""
+        self._clear_memos_of(self._cache)
+
+    @staticmethod
+    def _clear_memos_of(cache: Any) -> None:
+        for memo in (
+            cache.parse_unit,
+            cache.dimensionality,
+            cache.root_units,
+            cache.conversion_factor,
+        ):
+            memo.clear()
 
     def _add_unit(self, definition: UnitDefinition) -> None:
         if definition.is_base:
